@@ -87,8 +87,11 @@ def run(chk) -> None:
         chk.expect(not truthy, "optional-truthiness", fi.site(truthy[0]) if truthy else fi.where, "no `occupancy or default`: a stated occupancy of 0.0 is kept", f"`{norm(truthy[0])}` replaces a stated occupancy of 0.0 by the default" if truthy else "", K(fi, "occupancy-or"))
     else:
         chk.ok("clash-facts", fi.where, f"fact-level reading of find_clashes not possible ({why[:140]}); falling back to the pinned forms")
-        legacy_find_clashes(chk, fi, radii, c)
-    mt = repo.func(M, "AtomType.matches")
+        try:
+            legacy_find_clashes(chk, fi, radii, c)
+        except AnalysisError as ex:  # the pinned anchor (one top-level loop over kdtree.query_pairs) is gone as well: the other obligations are still evaluated
+            chk.error("clash-facts", fi.where, f"find_clashes can be read neither at fact level ({why[:100]}) nor in its pinned form ({ex})")
+    mt =repo.func(M, "AtomType.matches")
     chk.note_function(mt)
     chk.expect([norm(s) for s in mt.node.body] == ["return atom.name.strip().startswith(self.value)"], "collection", mt.where, "an atom matches a type when its name starts with the type letter", "AtomType.matches changed", K(mt, "matches"))
     check_cli(chk, fi)
